@@ -209,12 +209,18 @@ Inductive beh :=
 | BOkBad.     (* completes without error but with a result that cannot be serialised, returns *)
 
 Inductive ser := SJson | SProto | SNil.
-Inductive dres := DOk (v : Z) | DBad.        (* serializer.Unmarshal into a fresh value of a type *)
+(* serializer.Unmarshal of THIS call's payload into a FRESH value of a type: the token of the value
+   it yields, or an error.  Value tokens: the harness numbers the distinct canonical renderings
+   (every field) of the message values that occur in a case; equal token <-> equal value. *)
+Inductive dres := DOk (v : Z) | DBad.
 Inductive ctxv := CNil | CTyp (tid : Z).     (* the IContext value passed by the caller *)
-Inductive argv := ANil | AVal (tid v : Z).   (* the message passed to APICollection.Call *)
+(* the message passed to APICollection.Call: its type, how the harness builds it (opaque here) and
+   the token of its VALUE (a canonical rendering of all its fields) *)
+Inductive argv := ANil | AVal (tid recipe v : Z).
 
 Inductive ev :=
-| EvInvoke (uid : Z) (seen : option Z)   (* the method ran; None = it was given a nil message *)
+| EvInvoke (uid : Z) (seen : option Z)   (* the method ran; the token of the message value it was given
+                                            (all fields), None = a nil message *)
 | EvComplete (err : bool).               (* the caller's completion function ran *)
 
 Inductive res :=
@@ -243,12 +249,12 @@ Definition req_script (b : beh) : list (bool * bool) * bool :=
 Definition notify_panics (b : beh) : bool :=
   match b with BPanic | BOkPanic => true | _ => false end.
 
-Definition seen_of (a : argv) : option Z := match a with ANil => None | AVal _ v => Some v end.
+Definition seen_of (a : argv) : option Z := match a with ANil => None | AVal _ _ v => Some v end.
 
 Definition ctx_fits (t : param) (c : ctxv) : bool :=      (* reflect.Call's assignability check *)
   match c with CNil => true | CTyp tid => tid =? p_tid t end.
 Definition arg_fits (t : param) (a : argv) : bool :=
-  match a with ANil => true | AVal tid _ => tid =? p_tid t end.
+  match a with ANil => true | AVal tid _ _ => tid =? p_tid t end.
 
 (* The completion function as the handler sees it: onceCBFunc(cbFunc).  [rp] = the caller's cbFunc
    panics when handed (nil error, a result that cannot be serialised) - true for APIDispatcher's
@@ -326,7 +332,7 @@ Definition call_ser_g (rp : bool) (cs : smap container) (s : ser) (route : str)
           else
             match decode dec (p_tid t) with
             | DBad => Done (check_invoke cb true)      (* Unmarshal error *)
-            | DOk v => Done (call_g rp cs route c (AVal (p_tid t) v) cb b)
+            | DOk v => Done (call_g rp cs route c (AVal (p_tid t) 0 v) cb b)
             end
       end
   end.
